@@ -97,19 +97,20 @@ Proof. vm_compute. repeat split. Qed.
 (* =====================================================================================================================
    THE WHOLE STATEMENT as one machine (C13/Tree.v): databases -> retention policies -> measurement incarnations -> series index
    with deleted ids -> memtable / files; operations: create database / policy, write, DROP SERIES / MEASUREMENT / RETENTION POLICY /
-   DATABASE, flush, compaction, sync of the deleted-id table, restart.  [trun true true] = an acknowledged DROP SERIES is on
-   disk and the memtable was flushed before it (the _repaired variants; Refuted.v refutes [trun false _] and [trun _ false]: today's code). *)
+   DATABASE, flush, compaction, sync of the deleted-id table, restart.  [trun true true true] = an acknowledged DROP SERIES is on
+   disk, the memtable was flushed before it, a new series index is wired to the policy's deleted-series table at creation (the
+   _repaired variants; Refuted.v refutes [trun false _ _], [trun _ false _] and [trun _ _ false]). *)
 
 (* refinement: after ANY operation sequence, EVERY read shape (None = plain select / field filter / group by / aggregates;
    Some e = any tag predicate) of every (database, policy, measurement) returns exactly the rows of the reference machine -
    the reference map the black-box oracle uses: drops filter it, flush / compaction / restart do not touch it *)
 Theorem C13_tree_refines_reference : forall am os d r n q x, Forall top_ok os -> okq q ->
-  In x (tread am (trun true true am t0 os) d r n q) <-> In x (sread am (srun am s0 os) d r n q).
+  In x (tread am (trun true true true am t0 os) d r n q) <-> In x (sread am (srun am s0 os) d r n q).
 Proof. exact tree_refines. Qed.
 Print Assumptions C13_tree_refines_reference.
 (* ... and so does every listing (show series; tag values / tag keys are projections of it) *)
 Theorem C13_tree_listing_refines_reference : forall am os d r n q tg, Forall top_ok os -> okq q ->
-  In tg (tlist am (trun true true am t0 os) d r n q) <-> In tg (slist am (srun am s0 os) d r n q).
+  In tg (tlist am (trun true true true am t0 os) d r n q) <-> In tg (slist am (srun am s0 os) d r n q).
 Proof. exact tree_list_refines. Qed.
 Print Assumptions C13_tree_listing_refines_reference.
 
@@ -118,8 +119,8 @@ Print Assumptions C13_tree_listing_refines_reference.
    policy / same database); everything else is unchanged *)
 Theorem C13_every_drop_removes_exactly_what_it_names : forall am ops X d r n q x,
   Forall top_ok (ops ++ [X]) -> okq q -> is_drop X = true ->
-  In x (tread am (trun true true am t0 (ops ++ [X])) d r n q) <->
-  In x (tread am (trun true true am t0 ops) d r n q) /\ hit am X d r n (o_tags x) = false.
+  In x (tread am (trun true true true am t0 (ops ++ [X])) d r n q) <->
+  In x (tread am (trun true true true am t0 ops) d r n q) /\ hit am X d r n (o_tags x) = false.
 Proof. exact drop_exact. Qed.
 Print Assumptions C13_every_drop_removes_exactly_what_it_names.
 
@@ -128,21 +129,29 @@ Print Assumptions C13_every_drop_removes_exactly_what_it_names.
    written after X - it carries the stamp of a later write *)
 Theorem C13_after_a_drop_only_later_writes_are_visible_inside : forall am ops1 X ops2 d r n q x,
   Forall top_ok (ops1 ++ X :: ops2) -> okq q ->
-  In x (tread am (trun true true am t0 (ops1 ++ X :: ops2)) d r n q) -> hit am X d r n (o_tags x) = true ->
+  In x (tread am (trun true true true am t0 (ops1 ++ X :: ops2)) d r n q) -> hit am X d r n (o_tags x) = true ->
   In (o_stamp x) (flat_map stamp_of ops2).
 Proof. exact after_drop_fresh. Qed.
 Print Assumptions C13_after_a_drop_only_later_writes_are_visible_inside.
 Theorem C13_dropped_never_reappears : forall am ops1 X ops2 d r n q x,
   Forall top_ok (ops1 ++ X :: ops2) -> okq q ->
   hit am X d r n (o_tags x) = true -> ~ In (o_stamp x) (flat_map stamp_of ops2) ->
-  ~ In x (tread am (trun true true am t0 (ops1 ++ X :: ops2)) d r n q).
+  ~ In x (tread am (trun true true true am t0 (ops1 ++ X :: ops2)) d r n q).
 Proof. exact dropped_never_reappears. Qed.
 Print Assumptions C13_dropped_never_reappears.
+
+(* several series indexes per policy (one per week of data) inside the same machine: in every reachable state every index of every
+   policy consults exactly the policy's deleted set - so the refinement above already speaks about a DROP SERIES that spans indexes,
+   about indexes created after the deleted-series table, and about restarts *)
+Theorem C13_tree_every_index_consults_the_deleted_set : forall am os d r p g, Forall top_ok os ->
+  kget (d, r) (t_pols (trun true true true am t0 os)) = Some p -> In g (map fst (p_idx p)) -> eff p g = d_del (p_ix p).
+Proof. exact tree_wiring. Qed.
+Print Assumptions C13_tree_every_index_consults_the_deleted_set.
 
 (* flush, compaction, restart and the table sync, anywhere in a history, change no read at any later time *)
 Theorem C13_flush_compact_restart_invisible : forall am ops1 o ops2 d r n q x,
   Forall top_ok (ops1 ++ o :: ops2) -> okq q -> invisible o = true ->
-  In x (tread am (trun true true am t0 (ops1 ++ o :: ops2)) d r n q) <-> In x (tread am (trun true true am t0 (ops1 ++ ops2)) d r n q).
+  In x (tread am (trun true true true am t0 (ops1 ++ o :: ops2)) d r n q) <-> In x (tread am (trun true true true am t0 (ops1 ++ ops2)) d r n q).
 Proof. exact invisible_ops. Qed.
 Print Assumptions C13_flush_compact_restart_invisible.
 
@@ -150,8 +159,8 @@ Print Assumptions C13_flush_compact_restart_invisible.
    predicate its tags satisfy *)
 Theorem C13_write_after_any_history_is_visible : forall am ops d r n tags t v w q,
   Forall top_ok ops -> wf_tags tags -> okq q ->
-  kget (d, r) (t_pols (trun true true am t0 ops)) <> None -> evalq am q tags = true ->
-  In (tags, t, v, w) (tread am (trun true true am t0 (ops ++ [TWrite d r n tags t v w])) d r n q).
+  kget (d, r) (t_pols (trun true true true am t0 ops)) <> None -> evalq am q tags = true ->
+  In (tags, t, v, w) (tread am (trun true true true am t0 (ops ++ [TWrite d r n tags t v w])) d r n q).
 Proof. exact write_visible. Qed.
 Print Assumptions C13_write_after_any_history_is_visible.
 
@@ -160,14 +169,24 @@ Print Assumptions C13_write_after_any_history_is_visible.
 Definition ex_ops : list top :=
   [TCreateDB 1; TCreateRP 1 1; TWrite 1 1 5 [(1, 1)] 10 7 100; TWrite 1 1 5 [(1, 2)] 10 8 101; TFlush 1 1;
    TDropSeries 1 1 5 (Some (Atom 1 Eq 1)); TWrite 1 1 5 [(1, 1)] 11 9 102; TFlush 1 1; TCompact 1 1 0 2; TRestart 1 1].
+(* two index groups (times 10.. and 700000..): the series host=a lives in both indexes with two ids; DROP SERIES removes both *)
+Example C13_tree_two_indexes_example :
+  let am := fun (_ _ : N) => false in
+  let os := [TCreateDB 1; TCreateRP 1 1; TWrite 1 1 5 [(1, 1)] 10 7 100; TDropSeries 1 1 5 (Some (Atom 1 Eq 2));
+             TDropSeries 1 1 5 (Some (Atom 1 Eq 1)); TWrite 1 1 5 [(1, 1)] 700000 8 101; TWrite 1 1 5 [(1, 2)] 700001 9 102;
+             TWrite 1 1 5 [(1, 1)] 11 6 103] in
+  (tread am (trun true true true am t0 os) 1 1 5 None = [([(1, 1)], 11, 6, 103); ([(1, 1)], 700000, 8, 101); ([(1, 2)], 700001, 9, 102)]) /\
+  (tread am (trun true true true am t0 (os ++ [TDropSeries 1 1 5 (Some (Atom 1 Eq 1))])) 1 1 5 None = [([(1, 2)], 700001, 9, 102)]).
+Proof. vm_compute. split; reflexivity. Qed.
+
 Example C13_tree_example :
   let am := fun (_ _ : N) => false in
   Forall top_ok ex_ops /\
-  (tread am (trun true true am t0 ex_ops) 1 1 5 None = [([(1, 2)], 10, 8, 101); ([(1, 1)], 11, 9, 102)]) /\
-  (tlist am (trun true true am t0 ex_ops) 1 1 5 None = [[(1, 2)]; [(1, 2)]; [(1, 1)]; [(1, 1)]]) /\
-  (tread am (trun true true am t0 (ex_ops ++ [TDropMst 1 1 5; TWrite 1 1 5 [(1, 2)] 12 1 103])) 1 1 5 None = [([(1, 2)], 12, 1, 103)]) /\
-  (tread am (trun true true am t0 (ex_ops ++ [TDropDB 1; TCreateDB 1; TCreateRP 1 1])) 1 1 5 None = []) /\
-  (tread am (trun true true am t0 (ex_ops ++ [TDropRP 1 1; TCreateRP 1 1; TWrite 1 1 5 [(1, 1)] 10 3 104])) 1 1 5 None = [([(1, 1)], 10, 3, 104)]).
+  (tread am (trun true true true am t0 ex_ops) 1 1 5 None = [([(1, 2)], 10, 8, 101); ([(1, 1)], 11, 9, 102)]) /\
+  (tlist am (trun true true true am t0 ex_ops) 1 1 5 None = [[(1, 2)]; [(1, 2)]; [(1, 1)]; [(1, 1)]]) /\
+  (tread am (trun true true true am t0 (ex_ops ++ [TDropMst 1 1 5; TWrite 1 1 5 [(1, 2)] 12 1 103])) 1 1 5 None = [([(1, 2)], 12, 1, 103)]) /\
+  (tread am (trun true true true am t0 (ex_ops ++ [TDropDB 1; TCreateDB 1; TCreateRP 1 1])) 1 1 5 None = []) /\
+  (tread am (trun true true true am t0 (ex_ops ++ [TDropRP 1 1; TCreateRP 1 1; TWrite 1 1 5 [(1, 1)] 10 3 104])) 1 1 5 None = [([(1, 1)], 10, 3, 104)]).
 Proof.
   intros am. split.
   - unfold ex_ops. repeat (apply Forall_cons; [simpl; try exact I |]); try apply Forall_nil.
